@@ -22,7 +22,7 @@ func init() {
 		Spec: core.Spec{ID: "C09", Level: "exploration",
 			Rule:        "case = started engine (IngestBufferSize 1..64, row-count flush trigger 1..50, fixed batch size) whose store is shut at a gate (first CreateFile, Write, Close or Update); 1-16 producers offer 20x the configured bound in batches with short call deadlines. Sampled at every IngestRows return and every answer: accepted - answered. It must never exceed IngestBufferSize + 4*ceil(trigger/batchRows) + 2 (ingest channel + one flush's worth of batches in each of: open buffer, request blocked in the enqueue, queue slot, flush in progress), and once saturated further IngestRows calls must end with their context error. A count, not a timing. non-trivial = case that reached saturation (producers timed out); distinct = distinct (buffer size, trigger, batch size, producers, gate position)",
 			Assumptions: []string{"only the row-count trigger is active (byte/partition/time limits set out of reach) so 'a flush's worth of batches' is ceil(trigger/batchRows)"},
-			Floors:      map[string]int64{"cases_saturated": 25, "ingest_calls": 2000}},
+			Floors:      map[string]int64{"cases_saturated": 25, "ingest_calls": 1200}},
 		Cases:       func(t string) int { return nQueries(t, 48, 1200) },
 		Run:         runC09,
 		RaceMatters: true,
